@@ -4,6 +4,11 @@ import (
 	"fmt"
 	"strings"
 
+	"github.com/ipld/go-ipld-prime/datamodel"
+	"github.com/ipld/go-ipld-prime/linking"
+	"github.com/ipld/go-ipld-prime/node/basicnode"
+	"github.com/ipld/go-ipld-prime/traversal"
+
 	"verif/internal/core"
 )
 
@@ -208,6 +213,9 @@ func runC15(c *core.Ctx) error {
 			if !reify {
 				cases = append(cases, walkCase{g, spec, w})
 			}
+			if len(ul) > 0 && !reify {
+				c15Nested(c, g, spec, R, fail)
+			}
 		}
 		// skip sets
 		if len(ul) > 0 {
@@ -323,4 +331,74 @@ func interpretAsInUnion(v core.Val) bool {
 		}
 	}
 	return false
+}
+
+
+// c15Nested: a walk started from the Progress handed to a visit function (the nesting the WalkMatching documentation
+// invites) is a walk of its own: under visit-links-once the outer walk visits what it visits without the nested one,
+// and the nested walk visits what the same walk visits when started afresh at that node and path.
+func c15Nested(c *core.Ctx, g *core.Graph, spec core.Val, onceAlone core.WalkObs, fail func(string, core.WalkCfg, core.WalkObs, string)) {
+	s, st := core.CompileSel(spec)
+	all, st2 := core.CompileSel(core.SelAll())
+	if st != "" || st2 != "" || len(onceAlone.Visits) == 0 {
+		return
+	}
+	root, err := core.BuildBasic(g.Root, nil)
+	if err != nil {
+		return
+	}
+	mk := func(path datamodel.Path) traversal.Progress {
+		return traversal.Progress{Path: path, Cfg: &traversal.Config{LinkSystem: g.LinkSystem(nil, nil), LinkVisitOnlyOnce: true,
+			LinkTargetNodePrototypeChooser: func(datamodel.Link, linking.LinkContext) (datamodel.NodePrototype, error) {
+				return basicnode.Prototype.Any, nil
+			}}}
+	}
+	k := c.Rand.Intn(len(onceAlone.Visits))
+	var outer, nested, alone []string
+	var at datamodel.Node
+	var atPath datamodel.Path
+	i := 0
+	werr := func() (err error) {
+		defer func() {
+			if r := recover(); r != nil {
+				err = fmt.Errorf("panic: %v", r)
+			}
+		}()
+		return mk(datamodel.Path{}).WalkAdv(root, s, func(p traversal.Progress, n datamodel.Node, r traversal.VisitReason) error {
+			outer = append(outer, p.Path.String())
+			if i == k {
+				at, atPath = n, p.Path
+				if err := p.WalkAdv(n, all, func(p2 traversal.Progress, n2 datamodel.Node, r2 traversal.VisitReason) error {
+					nested = append(nested, p2.Path.String())
+					return nil
+				}); err != nil {
+					nested = append(nested, "error: "+err.Error())
+				}
+			}
+			i++
+			return nil
+		})
+	}()
+	var want []string
+	for _, v := range onceAlone.Visits {
+		want = append(want, v.Kept.String())
+	}
+	w := core.WalkCfg{Once: true}
+	c.Dist("nested-walk-from-visitor")
+	if werr != nil || !eqStrs(outer, want) {
+		fail("C15/nested-walk-changes-outer-walk", w, onceAlone, fmt.Sprintf("outer walk with a nested explore-all walk started at visit %d: %v (error %v); without: %v", k, outer, werr, want))
+		return
+	}
+	if at == nil {
+		return
+	}
+	if err := mk(atPath).WalkAdv(at, all, func(p2 traversal.Progress, n2 datamodel.Node, r2 traversal.VisitReason) error {
+		alone = append(alone, p2.Path.String())
+		return nil
+	}); err != nil {
+		alone = append(alone, "error: "+err.Error())
+	}
+	if !eqStrs(nested, alone) {
+		fail("C15/nested-walk-differs-from-fresh-walk", w, onceAlone, fmt.Sprintf("explore-all walk from the Progress of visit %d (%q): %v; the same walk started afresh there: %v", k, atPath.String(), nested, alone))
+	}
 }
